@@ -42,7 +42,7 @@ fn run_block(ctx: &Ctx, K: usize, T: usize, seed: u64, exhaustive_small: bool, s
         }
     }
     let max_start = (1u32 << 24) - K as u32;
-    for _ in 0..ctx.args.pick(120, 400) {
+    for _ in 0..ctx.args.pick(600, 3000) {
         let n = match rng.below(4) {
             0 => rng.below(3) as u32,
             1 => rng.range(2, 20) as u32,
@@ -178,7 +178,7 @@ pub fn run(ctx: &Ctx) -> i32 {
             ctx.sample(|| J::obj(vec![("K", J::i(K)), ("T", J::i(T)), ("windows", J::s("every (s,n) in 0..=50 x 0..=20 for K in {3,10}; random windows n<=300, s log-uniform up to 2^24-K-n incl. windows ending exactly at ESI 2^24-1; overlapping pairs"))]));
         }
     });
-    let nobj = ctx.args.pick(1500, 30000);
+    let nobj = ctx.args.pick(20000, 200000);
     par_for(nobj, |i| run_object(ctx, ctx.seed(), i as u64, &st));
     ctx.eval(nobj);
     ctx.cov("windows_requested", J::i(st[0].load(Relaxed)));
